@@ -187,6 +187,15 @@ def check(ctx):
                         res.inst(CTX, "context-ctor|" + fn.path, fn.where, True, "%s" % vals)
                         if not good:
                             res.violate(CTX, "context-ctor|" + fn.path, fn.where, "the builder context must store the automaton and file it was given: %s" % vals)
+    # necessary conditions of the LALR(1) construction this property presupposes (imported from C17's clause check)
+    from .c17 import run_rules as c17_rules
+    from ..report import Result as _R2
+    r17 = _R2("C17", ctx["tier"], "other")
+    c17_rules(ctx, r17)
+    res.rule("R-C17-* (imported)", "the five structural necessary conditions of the LALR(1) construction (C17 clauses N1-N5: symmetric core equality, change flag covers all mutated components, re-enqueue exactly on growth, closure/look-ahead augmentation, a transition per symbol) — this property's statement presupposes the automaton is the LALR(1) automaton")
+    res.inst("R-C17-* (imported)", "C17-clauses", "", True, "%d instances, %d violations" % (len(r17.instances), len(r17.violations)))
+    for v in r17.violations:
+        res.violate(v.rule, v.key, v.where, v.msg, v.detail)
     res.assume("not decided here: that the attached automaton is *the LALR(1)* automaton of the grammar (C17); decided: it is the automaton the tables were being filled from, built from the validated input")
     return finish(res, "Provenance of every field of the conflict error decided by intra-procedural value reconstruction on MIR along the whole call chain from the per-state loop to the single construction site, plus the look-ahead/action pairing at each of the three call sites of the conflict detector and the wiring in generate. No test ever constructs this error.")
 
